@@ -57,7 +57,7 @@ HARNESSES = [  # (fn, props, call, pooled_only, stub_sync, thorough_only)
  ("rejected_send_changes_nothing",     "C16",           "kit::multi_rejected_send_changes_nothing::<Ch, $n, $m>(Entry::Send)", True, False),
  ("rejected_send_with_changes_nothing","C16 tier=thorough",           "kit::multi_rejected_send_changes_nothing::<Ch, $n, $m>(Entry::SendWith)", True, False),
  ("teardown_with_buffered_events",     "C05",           "kit::multi_teardown_with_buffered_events::<Ch, $n, $m>()", False, False),
- ("suspended_async_send_blocks_nobody","C20 spin=violation", "kit::multi_suspended_async_send_blocks_nobody::<Ch, $n, $m>()", False, False),
+ ("suspended_async_send_blocks_nobody","C20 spin=violation tier=thorough", "kit::multi_suspended_async_send_blocks_nobody::<Ch, $n, $m>()", False, False),
  ("reserved_slot",                     "C08",           "kit::multi_reserved_slot::<Ch, $n, $m>()", True, False),
 ]
 
@@ -73,8 +73,8 @@ def gen(name, g):
 // ring origins, any set of live listeners). The obligations are the generic ones of /verif/kani/mutiny_stream.rs (`kit`).
 {'// reserve_slot / try_send_reserved / try_cancel_slot_reserve `panic!` upstream for this channel (not implemented): no reserved-slot harnesses.' if g['kind'] == 'arc' else ''}
 // @module {g['module']}
-// @sizes multi_proofs: n2m1=quick n2m2=thorough n4m2=thorough
-// @jobs 6 thorough=3
+// @sizes multi_proofs: n2m1={'quick' if g['kind'] == 'arc' else 'thorough'} n2m2=thorough n4m2=thorough
+// @jobs 5 thorough=2
 #[allow(unused_imports)] use super::*;
 #[allow(unused_imports)] use crate::mutiny_stream::verif_hooks::{{self as ms, MultiModel, Entry}};
 #[allow(unused_imports)] use crate::streams_manager::verif_hooks as sm;
